@@ -383,6 +383,8 @@ fn gen_family(files: &[RFile], budget: usize, acc_proto: &Acc, name: &'static st
 
 // ------------------------------------------------------------------ seeds
 pub fn real_payloads() -> Vec<Vec<u8>> {
+    // De-framed with the reference recogniser (not with sml-rs), so that the corpus does not
+    // depend on the transport decoder under test.
     let dir = crate::report::repo_dir().join("tests/libsml-testing");
     let mut names: Vec<_> = match std::fs::read_dir(&dir) {
         Ok(d) => d.filter_map(|e| e.ok()).map(|e| e.path()).filter(|p| p.extension().and_then(|x| x.to_str()) == Some("bin")).collect(),
@@ -392,9 +394,33 @@ pub fn real_payloads() -> Vec<Vec<u8>> {
     let mut v = vec![];
     for p in names {
         if let Ok(bytes) = std::fs::read(&p) {
-            for r in sml_rs::transport::decode(&bytes) {
-                if let Ok(payload) = r {
-                    v.push(payload);
+            let mut i = 0;
+            while i + 16 <= bytes.len() {
+                if bytes[i..i + 8] != crate::refm::START {
+                    i += 1;
+                    continue;
+                }
+                let mut found = None;
+                let mut j = i + 16;
+                while j <= bytes.len() {
+                    if bytes[j - 8..j - 3] == [0x1b, 0x1b, 0x1b, 0x1b, 0x1a] {
+                        if let Some(m) = crate::refm::recognise(&bytes[i..j]) {
+                            found = Some((j, m));
+                            break;
+                        }
+                    }
+                    // a new start sequence before any valid end: give up on this one
+                    if j - i > 8 && j + 8 <= bytes.len() && bytes[j..j + 8] == crate::refm::START && (j - i) % 4 == 0 && false {
+                        break;
+                    }
+                    j += 4;
+                }
+                match found {
+                    Some((j, m)) => {
+                        v.push(m);
+                        i = j;
+                    }
+                    None => i += 1,
                 }
             }
         }
@@ -423,9 +449,18 @@ pub fn seeds(tier: Tier) -> Vec<Vec<u8>> {
     for f in &files {
         s.push(encode_file(f, &[]).0);
     }
-    // non-default encodings as seeds: workaround time, long TLFs
-    s.push(encode_file(&files[4], &[(9, 1)]).0);
-    s.push(encode_file(&files[2], &[(0, 1), (3, 2)]).0);
+    // every single non-default encoding choice of a rich one-entry file as a seed of its own
+    // (workaround time, wider integers, non-minimal and 8-byte TLFs, 0xff booleans ...)
+    {
+        let rich = vec![getlist(vec![REntry { value: RValue::ListTime(RTime::SecIndex(0x01020304)), ..e1.clone() }])];
+        let (_, sites) = encode_file(&rich, &[]);
+        for (i, &n) in sites.iter().enumerate() {
+            for o in 1..n {
+                s.push(encode_file(&rich, &[(i, o)]).0);
+            }
+        }
+        s.push(encode_file(&files[2], &[(0, 1), (3, 2)]).0);
+    }
     let mut real = real_payloads();
     real.sort_by_key(|p| p.len());
     real.dedup_by_key(|p| p.len());
@@ -447,9 +482,23 @@ const STRUCT_BYTES: [u8; 16] = [0x00, 0x01, 0x62, 0x63, 0x65, 0x71, 0x72, 0x76, 
 
 fn feed_both(acc: &mut Acc, x: &[u8], fam: &'static str) {
     acc.feed(x, fam);
-    if let Some(y) = repair_crcs(x) {
+    let rep = repair_crcs(x);
+    if let Some(y) = &rep {
         if y != x {
-            acc.feed(&y, "checksum-repaired variants");
+            acc.feed(y, "checksum-repaired variants");
+        }
+    }
+    // "checksums recomputed by an attacker" also where the independent reader finds no
+    // structure to repair: if the input ends like a message (`63 hi lo 00`) and starts like
+    // one, recompute the checksum over everything before that tail
+    let n = x.len();
+    if n >= 6 && x[n - 4] == 0x63 && x[n - 1] == 0x00 && x[0] == 0x76 {
+        let crc = crate::refm::crc_x25(&x[..n - 4]).swap_bytes();
+        let mut y = x.to_vec();
+        y[n - 3] = (crc >> 8) as u8;
+        y[n - 2] = crc as u8;
+        if y != x && rep.as_ref() != Some(&y) {
+            acc.feed(&y, "tail-checksum-recomputed variants");
         }
     }
 }
@@ -981,32 +1030,39 @@ pub fn replay(case: &J) -> Vec<Viol> {
 }
 
 fn golden_binding(ctx: &Ctx) -> u64 {
-    // the independent reader against real meter data: every transmission of the repository's
-    // test corpus must be read identically by the reference and by complete::parse (which the
-    // repository's snapshot test pins)
+    // The independent reader against real meter data. Only the implementation-independent half
+    // is a machinery condition (the reader must accept real transmissions); agreement with
+    // complete::parse on them is checked as an ordinary input family ("real meter
+    // transmissions"), so that a changed parser yields a VIOLATION, not a machinery exit.
     let real = real_payloads();
-    let mut ok = 0u64;
-    for p in &real {
-        let r = read_file(p);
-        let c = complete::parse(p).map(|f| from_complete(&f));
-        match (r, c) {
-            (Ok(a), Ok(b)) if a == b => ok += 1,
-            (Err(_), Err(_)) => {}
-            (r, c) => machinery(&format!("golden binding: independent reader and complete::parse disagree on a real meter payload {}: {:?} vs {:?}", hex(&p[..p.len().min(40)]), r.map(|x| x.len()), c.map(|x| x.len()))),
-        }
-    }
+    let ok = real.iter().filter(|p| read_file(p).is_ok()).count() as u64;
     if real.is_empty() {
         ctx.log("golden binding: no real meter corpus found under /repo/tests/libsml-testing (skipped)");
     } else {
-        ctx.log(&format!("golden binding: {} real transmissions decoded from the repository's corpus, {} accepted identically by the independent reader and complete::parse", real.len(), ok));
-        if ok == 0 {
-            machinery("golden binding: the independent reader accepts none of the real meter payloads");
+        ctx.log(&format!("golden binding: {} real transmissions de-framed from the repository's corpus, {} accepted by the independent reader", real.len(), ok));
+        if ok * 10 < real.len() as u64 * 9 {
+            machinery("golden binding: the independent reader rejects more than 10% of the real meter payloads");
         }
     }
     if !crate::alloc::self_test() {
         machinery("counting allocator is not installed");
     }
     ok
+}
+fn real_family(proto: &Acc) -> Acc {
+    let real = real_payloads();
+    let parts = par_chunks(real.len() as u64, 8, |a, b| {
+        let mut acc = Acc::new(&proto.report, proto.rename_c12);
+        for i in a..b {
+            acc.feed(&real[i as usize], "real meter transmissions (repository corpus)");
+        }
+        acc
+    });
+    let mut acc = Acc::new(&proto.report, proto.rename_c12);
+    for p in parts {
+        acc.merge(p);
+    }
+    acc
 }
 
 pub fn run(prop: &'static str, tier: Tier) -> ! {
@@ -1030,6 +1086,7 @@ pub fn run(prop: &'static str, tier: Tier) -> ! {
         ctx.log(&format!("{}: {} inputs, {} accepted by the reference, {} violation instances", name, a.n, a.accepted, a.tally.total()));
         all.merge(a);
     };
+    fam("real meter transmissions", real_family(&proto), &mut all);
     match prop {
         "C03" => {
             let entries = entry_space(tier == Tier::Quick);
